@@ -151,6 +151,7 @@ type UnitResult struct {
 	Obligs      []*Oblig
 	Unsupported []string
 	Assumed     []string
+	Inlined     []string
 	Paths       int
 	Decls       string
 	Axioms      []T
@@ -159,7 +160,7 @@ type UnitResult struct {
 
 func (e *Engine) NewUnit(fn *ssa.Function, fs *FuncSpec) *Unit {
 	u := &Unit{eng: e, pkg: e.pkg, fn: fn, fs: fs, decls: NewDecls(), loops: map[*ssa.BasicBlock]*Loop{}, heapSorts: map[string]Sort{},
-		assumed: map[string]bool{}, callOrd: map[string]int{}, pdoms: map[*ssa.Function]map[*ssa.BasicBlock]*ssa.BasicBlock{}, lastArgTypes: map[string][]types.Type{}, sliceArr: map[string]string{}, arrayOfCache: map[string]T{}, defOf: map[string]string{}, noMerge: os.Getenv("EBU_NOMERGE") != ""}
+		assumed: map[string]bool{}, autoInlined: map[string]bool{}, callOrd: map[string]int{}, pdoms: map[*ssa.Function]map[*ssa.BasicBlock]*ssa.BasicBlock{}, lastArgTypes: map[string][]types.Type{}, sliceArr: map[string]string{}, arrayOfCache: map[string]T{}, defOf: map[string]string{}, noMerge: os.Getenv("EBU_NOMERGE") != ""}
 	if fs != nil {
 		u.props = fs.Props
 	}
@@ -284,7 +285,7 @@ func (e *Engine) VerifyFunc(name string) (*UnitResult, error) {
 	}
 	sort.Strings(assumed)
 	axioms := u.axiomTerms(st0)
-	return &UnitResult{Covers: u.covers, Axioms: axioms, Func: name, Obligs: u.obligs, Unsupported: u.unsupported, Assumed: assumed, Paths: u.npaths, Decls: u.decls.Text()}, nil
+	return &UnitResult{Inlined: sortedKeys(u.autoInlined), Covers: u.covers, Axioms: axioms, Func: name, Obligs: u.obligs, Unsupported: u.unsupported, Assumed: assumed, Paths: u.npaths, Decls: u.decls.Text()}, nil
 }
 
 func (s *State) pcAtEntry(n int) []T {
